@@ -994,12 +994,8 @@ func (in *inliner) fileEdits(f *ast.File, fname string, src []byte) []textEdit {
 			refuse("spread call of a non-variadic function")
 			return true
 		}
-		var typeNodes []ast.Node
-		typeNodes = append(typeNodes, c.typ, c.body)
-		if c.recv != nil {
-			typeNodes = append(typeNodes, c.recv)
-		}
-		if why := in.sameOutside(c, call, typeNodes...); why != "" {
+		// (the type expressions of the signature are checked where their text is actually emitted)
+		if why := in.sameOutside(c, call, c.body); why != "" {
 			refuse(why)
 			return true
 		}
@@ -1172,6 +1168,23 @@ func (in *inliner) expand(c *calleeInfo, call *ast.CallExpr, recvX ast.Expr, tai
 	var sb strings.Builder
 	type param struct {
 		name, typ string
+		typExpr   ast.Node // where typ comes from (checked for capture when the text is emitted)
+		elide     bool     // the argument already has exactly this type: no type text needed
+	}
+	// an argument whose own type is identical to the parameter's needs no declared type (constants and nil do)
+	sameType := func(arg ast.Expr, want types.Type) bool {
+		tv, ok := info.Types[arg]
+		if !ok || tv.Value != nil || tv.IsNil() || tv.Type == nil || want == nil {
+			return false
+		}
+		return types.Identical(tv.Type, want)
+	}
+	var sig *types.Signature
+	switch o := c.obj.(type) {
+	case *types.Func:
+		sig, _ = o.Type().(*types.Signature)
+	case *types.Var:
+		sig, _ = o.Type().Underlying().(*types.Signature)
 	}
 	var params []param
 	var args []string
@@ -1201,7 +1214,7 @@ func (in *inliner) expand(c *calleeInfo, call *ast.CallExpr, recvX ast.Expr, tai
 		case !wantPtr && havePtr:
 			rx = "*(" + rx + ")"
 		}
-		params = append(params, param{name, in.text(rf.Type)})
+		params = append(params, param{name: name, typ: in.text(rf.Type), typExpr: rf.Type, elide: true})
 		args = append(args, rx)
 	}
 	// parameters
@@ -1214,14 +1227,23 @@ func (in *inliner) expand(c *calleeInfo, call *ast.CallExpr, recvX ast.Expr, tai
 				tt = "[]" + in.text(el.Elt)
 			}
 			if len(fld.Names) == 0 {
-				plist = append(plist, param{"_", tt})
+				plist = append(plist, param{name: "_", typ: tt, typExpr: fld.Type})
 			}
 			for _, n := range fld.Names {
-				plist = append(plist, param{n.Name, tt})
+				plist = append(plist, param{name: n.Name, typ: tt, typExpr: fld.Type})
 			}
 		}
 	}
 	np := len(plist)
+	if sig != nil && sig.Params().Len() == np && (!variadic || call.Ellipsis.IsValid()) && len(call.Args) == np {
+		for i := range plist {
+			plist[i].elide = sameType(call.Args[i], sig.Params().At(i).Type())
+		}
+	} else if sig != nil && sig.Params().Len() == np && variadic && len(call.Args) >= np-1 {
+		for i := 0; i < np-1; i++ {
+			plist[i].elide = sameType(call.Args[i], sig.Params().At(i).Type())
+		}
+	}
 	switch {
 	case !variadic:
 		if len(call.Args) != np {
@@ -1256,11 +1278,23 @@ func (in *inliner) expand(c *calleeInfo, call *ast.CallExpr, recvX ast.Expr, tai
 		}
 	}
 	params = append(params, plist...)
+	declare := func(i int, p param) {
+		if p.elide {
+			fmt.Fprintf(&sb, "var %sa%d = %s\n", pfx, i, args[i])
+		} else {
+			fmt.Fprintf(&sb, "var %sa%d %s = %s\n", pfx, i, p.typ, args[i])
+		}
+	}
 	for i, p := range params {
 		if p.typ == "" || args[i] == "" {
 			return "", nil, "could not take the source text of a parameter"
 		}
-		fmt.Fprintf(&sb, "var %sa%d %s = %s\n", pfx, i, p.typ, args[i])
+		if !p.elide {
+			if why := in.sameOutside(c, call, p.typExpr); why != "" {
+				return "", nil, why
+			}
+		}
+		declare(i, p)
 	}
 	// results
 	type result struct{ name, typ string }
@@ -1281,7 +1315,12 @@ func (in *inliner) expand(c *calleeInfo, call *ast.CallExpr, recvX ast.Expr, tai
 		sb.Reset()
 		sb.WriteString("{\n")
 		for i, p := range params {
-			fmt.Fprintf(&sb, "var %sa%d %s = %s\n", pfx, i, p.typ, args[i])
+			declare(i, p)
+		}
+	}
+	if !tail && c.typ.Results != nil {
+		if why := in.sameOutside(c, call, c.typ.Results); why != "" {
+			return "", nil, why
 		}
 	}
 	for i, r := range rlist {
